@@ -11,9 +11,14 @@ from . import kalman_sessions as ks
 ID = "C03"
 PROPS = "props/C03.v"
 GENERATED: list = []
-CASE_DEPS = ["lib/MatOps.vo", "model/Kalman.vo", "lib/KalmanCase.vo"]
+CASE_DEPS = ["lib/MatOps.vo", "model/Kalman.vo", "lib/KalmanCase.vo", "model/KalmanSession.vo", "lib/KalmanSessionCase.vo"]
 ALLOWED_AXIOMS: set = set()          # the theorems are closed under the global context
 TRUSTED = [
+    "model/KalmanSession.v is hand-written from has_variants.py (alter_num_variants, iter_variants), simultaneous/main.py "
+    "(solve -> _solve_variant), simultaneous/_get.py (_gets_solution), fords/kalmans.py (the loop over the variants), "
+    "fords/shock_simulators.py and fords/solutions.py (_get_solution_expansion memo lists); it is tied to the code by the session "
+    "correspondence (recorded inputs of fords.kalmans.predict and of _get_solution_expansion, memo-list lengths after every "
+    "operation) - no translator",
     "model/Kalman.v is hand-written from fords/kalmans.py (predict, Cache.calculate_likelihood, "
     "_calculate_variance_scale, calculate_likelihood_contributions, _OutputStore), simultaneous/_kalmans.py and "
     "fords/covariances.py (symmetrize, std_from_cov); it is tied to the code by the tolerance correspondence only",
@@ -30,7 +35,9 @@ ASSUMPTIONS = [
     "theorems are over an arbitrary real field (no rounding); shock covariances symmetric; statements that mention the inverse "
     "of F need F invertible in every period",
     "unit-root models: diffuse_method='fixed_unknown' (the default) with the unit roots identified by the data (the GLS "
-    "system is solved by the inverse in the model, by lstsq in the code); one parameter variant; the impact of anticipated "
+    "system is solved by the inverse in the model, by lstsq in the code); the numerical model is that of ONE pass of the "
+    "loop over the parameter variants - which solution, values, expansion matrices and data column each pass of each call of a "
+    "session is handed is the subject of model/KalmanSession.v (state machine over the variants, black boxes abstract); the impact of anticipated "
     "shocks enters the model as an input that the harness derives from a public simulate() run on a fresh model object",
     "the model follows the code as repaired by fixes/C03_1.patch (contributions carry the variance scale)",
 ]
@@ -49,7 +56,9 @@ MANIFEST = {
                   "given all data so far and the reported likelihood is the negative log density of the stacked data; "
                   "contributions sum to the total for rescale_variance in {True, False}; empty periods contribute 0 and leave "
                   "the state unchanged; var_scale and the concentrated likelihood formula.",
-    "level_note": "PARTIAL: the filter part is complete (one step = conditioning, tower law, and the induction over the periods: "
+    "level_note": "Round 4: props C0x_session_* / C0x_call_variant_pointwise / C0x_reachable_solved_is_fresh are about the "
+                  "model OBJECT (list of variants with stored solutions and memo lists) over every operation history; the numerical "
+                  "black boxes are arbitrary functions there.  PARTIAL: the filter part is complete (one step = conditioning, tower law, and the induction over the periods: "
                   "filtered moments and likelihood = conditioning the stacked Gaussian, C03_filter_is_batch).  Not proved in Coq: "
                   "that the SMOOTHED means/stds (and smoothed shocks) are the conditional moments given all data, and the batch "
                   "characterisation of predicted quantities of shocks; these are checked numerically by the falsifier (dense "
@@ -62,8 +71,12 @@ MANIFEST = {
 
 def correspondence(ctx) -> CorrResult:
     n = int(os.environ.get("VERIF_KF_CASES", ctx.scale(250, 1200)))      # development knob
-    return kc.correspondence(ctx, n_cases=n, n_exact=ctx.scale(3, 12) if n >= 100 else 0,
-                             max_periods=ctx.scale(8, 24), pid=ID)
+    res = kc.correspondence(ctx, n_cases=n, n_exact=ctx.scale(3, 12) if n >= 100 else 0,
+                            max_periods=ctx.scale(8, 24), pid=ID)
+    # the model object as a state machine (model/KalmanSession.v) against real call sequences
+    ks.session_correspondence(ctx, int(os.environ.get("VERIF_KF_SESSIONS", ctx.scale(24, 300))),
+                              max_periods=ctx.scale(8, 16), pid=ID, res=res)
+    return res
 
 
 def falsify(ctx, hints):
